@@ -110,7 +110,7 @@ struct Level {
 
 pub fn run(args: &Args) -> i32 {
     let rec = Recorder::new("C19", "exploration", args);
-    rec.set_rule("one evaluation = one compress (and, if it succeeded, decompress) invocation pair of the real CLI binary on a generated file; distinct_nontrivial = distinct (size class, data shape, level option, path mode) tuples whose compress invocation exited 0 and were carried through decompression and comparison");
+    rec.set_rule("one evaluation = one compress (and, if it succeeded, decompress) invocation pair of the real CLI binary on a generated file; distinct_nontrivial = distinct (size class, data shape, level option, path mode, output path fresh / holding a longer file / holding a shorter file) tuples whose compress invocation exited 0 and were carried through decompression and comparison");
     rec.assume("'implemented level' = Uncompressed (-l 0) and Fastest (-l 1); 'no level given' must work because the statement requires it; a clean non-zero exit is the accepted way to fail for every other level value");
     let Some(cli) = args.extra.get("cli").cloned() else {
         rec.inconclusive("no --cli <path to ruzstd-cli>");
@@ -168,6 +168,8 @@ pub fn run(args: &Args) -> i32 {
         shape: u64,
         level: Level,
         default_paths: bool,
+        /// 0: output paths do not exist; 1: they exist and are longer than the result; 2: exist and are shorter
+        preexisting: u8,
     }
     let mut cases = Vec::new();
     let mut k = 0u64;
@@ -180,7 +182,8 @@ pub fn run(args: &Args) -> i32 {
             let shapes: Vec<u64> = if *size <= (1 << 20) && args.thorough() { vec![0, 1, 2, 3, 4] } else { vec![(k + args.seed) % 5] };
             for shape in shapes {
                 k += 1;
-                cases.push(Case { size: *size, size_class, shape, level: level.clone(), default_paths: (k + args.seed / 5) % 2 == 0 });
+                let preexisting = if level.must_work { ((k / 2 + args.seed) % 3) as u8 } else { 0 };
+                cases.push(Case { size: *size, size_class, shape, level: level.clone(), default_paths: (k + args.seed / 5) % 2 == 0, preexisting });
             }
         }
     }
@@ -188,7 +191,9 @@ pub fn run(args: &Args) -> i32 {
     let mut r = Rng::for_case(args.seed, 19, 0);
     for _ in 0..extra {
         let size = r.size(0, 600_000);
-        cases.push(Case { size, size_class: "random", shape: r.below(5), level: r.pick(&levels).clone(), default_paths: r.chance(1, 2) });
+        let level = r.pick(&levels).clone();
+        let preexisting = if level.must_work { r.below(3) as u8 } else { 0 };
+        cases.push(Case { size, size_class: "random", shape: r.below(5), level, default_paths: r.chance(1, 2), preexisting });
     }
     rec.count("cases", cases.len() as u64);
 
@@ -223,8 +228,15 @@ pub fn run(args: &Args) -> i32 {
         if !opts_first {
             cargs.extend(c.level.args.iter().map(|s| s.to_string()));
         }
-        let disc = format!("level={}", c.level.name);
-        let replay = json!({"size": c.size, "shape": c.shape, "case_seed": [args.seed, 191, i], "compress_args": cargs, "default_paths": c.default_paths});
+        let disc = format!("level={} preexisting_output={}", c.level.name, c.preexisting);
+        let replay = json!({"size": c.size, "shape": c.shape, "case_seed": [args.seed, 191, i], "compress_args": cargs, "default_paths": c.default_paths, "preexisting": c.preexisting});
+        // an older, longer or shorter, file at the output path must simply be replaced
+        let stale = |path: &Path| match c.preexisting {
+            1 => std::fs::write(path, vec![0xEEu8; c.size + 70_000]).unwrap(),
+            2 => std::fs::write(path, b"old").unwrap(),
+            _ => {}
+        };
+        stale(&zst);
         let res = run_cli(&cli, &dir, &cargs, timeout);
         if res.timed_out {
             rec.inconclusive(&format!("compress timed out ({} bytes, {})", c.size, c.level.name));
@@ -277,6 +289,7 @@ pub fn run(args: &Args) -> i32 {
                         let out = other.join("restored.bin");
                         (dir.clone(), vec!["decompress".to_string(), zst.to_string_lossy().into_owned(), out.to_string_lossy().into_owned()], out)
                     };
+                    stale(&restored);
                     let dres = run_cli(&cli, &dcwd, &dargs, timeout);
                     if dres.timed_out {
                         rec.inconclusive("decompress timed out");
@@ -286,7 +299,10 @@ pub fn run(args: &Args) -> i32 {
                     } else {
                         match std::fs::read(&restored) {
                             Ok(back) if back == content => {
-                                rec.distinct(fnv_str(&format!("{}|{}|{}|{}", c.size_class, c.shape, c.level.name, c.default_paths)));
+                                rec.distinct(fnv_str(&format!("{}|{}|{}|{}|{}", c.size_class, c.shape, c.level.name, c.default_paths, c.preexisting)));
+                                if c.preexisting != 0 {
+                                    rec.count("round_trips_over_existing_outputs", 1);
+                                }
                                 rec.count("round_trips_verified", 1);
                             }
                             Ok(back) => rec.violation(Sig::new("roundtrip_mismatch", "decompress", &disc), json!({"restored_len": back.len(), "input_len": c.size}), replay.clone()),
